@@ -4,7 +4,7 @@ from collections.abc import Mapping
 import copy
 
 from . import registry
-from .exceptions import ParseError
+from .exceptions import ExtraPropertiesError, ParseError
 from .utils import _get_dict, detect_spec_version
 
 
@@ -109,7 +109,22 @@ def dict_to_stix2(stix_dict, allow_custom=False, interoperability=False, version
                 return stix_dict
         raise ParseError("Can't parse unknown object type '%s'! For custom types, use the CustomObject decorator." % obj_type)
 
+    _check_no_constructor_arguments(obj_class, stix_dict, allow_custom)
+
     return obj_class(allow_custom=allow_custom, interoperability=interoperability, **stix_dict)
+
+
+def _check_no_constructor_arguments(obj_class, stix_dict, allow_custom, names=("custom_properties", "_valid_refs")):
+    """
+    Content is passed to the class as keyword arguments.  Some keyword
+    arguments are not properties but instructions to the constructor
+    ("custom_properties" even switches customization on): in content they are
+    just properties no specification defines.
+    """
+    if not allow_custom:
+        extra = [name for name in names if name in stix_dict]
+        if extra:
+            raise ExtraPropertiesError(obj_class, extra)
 
 
 def parse_observable(data, _valid_refs=None, allow_custom=False, interoperability=False, version=None):
@@ -143,8 +158,6 @@ def parse_observable(data, _valid_refs=None, allow_custom=False, interoperabilit
     except RecursionError:
         raise ParseError("Can't parse observable: content is nested too deeply")
 
-    obj['_valid_refs'] = _valid_refs or []
-
     if not version:
         version = detect_spec_version(obj)
 
@@ -157,12 +170,13 @@ def parse_observable(data, _valid_refs=None, allow_custom=False, interoperabilit
         if allow_custom:
             # flag allows for unknown custom objects too, but will not
             # be parsed into STIX observable object, just returned as is
-            # (without the bookkeeping entry added above)
-            del obj['_valid_refs']
             return obj
         raise ParseError(
             "Can't parse unknown observable type '%s'! For custom observables, "
             "use the CustomObservable decorator." % obj['type'],
         )
+
+    _check_no_constructor_arguments(obj_class, obj, allow_custom, ("custom_properties",))
+    obj['_valid_refs'] = _valid_refs or []
 
     return obj_class(allow_custom=allow_custom, interoperability=interoperability, **obj)
